@@ -1020,13 +1020,13 @@ def _fmt(v):
     return v
 
 
-def compare_with_fresh(s, labels, step):
+def compare_with_fresh(s, labels, step, seed=12345):
     """evaluate `labels` on the live graph and on a freshly built copy holding the same base-parameter values"""
     out = []
     fresh = build(s.name, s.state())
     for lab in labels:
-        a = _evaluate(s, lab)
-        b = _evaluate(fresh, lab)
+        a = _evaluate(s, lab, seed)
+        b = _evaluate(fresh, lab, seed)
         if a[0] == "exc" and b[0] == "exc":
             continue  # the evaluation itself is broken for reasons outside C11 (same failure on a fresh copy)
         if a[0] != b[0]:
@@ -1041,7 +1041,7 @@ def apply_op(s, op, step=0):
     kind = op["op"]
     if kind == "eval":
         labels = list(s.evals) if op.get("what", "*") == "*" else list(op["what"])
-        return compare_with_fresh(s, [l for l in labels if l in s.evals], step)
+        return compare_with_fresh(s, [l for l in labels if l in s.evals], step, op.get("seed", 12345))
     try:
         if kind == "assign":
             t = s.target(op["target"])
@@ -1076,7 +1076,8 @@ def apply_op(s, op, step=0):
             loss = loss.sum() if isinstance(loss, torch.Tensor) else sum(x.sum() for x in loss)
             opt = torch.optim.SGD([p.tensor for p in ps], lr=1.0)
             opt.zero_grad()
-            loss.backward()
+            if loss.requires_grad:       # (a loss that does not depend on the targets: the step is a no-op)
+                loss.backward()
             gmax = max([float(p.tensor.grad.abs().max()) if p.tensor.grad is not None else 0.0 for p in ps] + [1e-12])
             for g in opt.param_groups:
                 g["lr"] = op.get("step", 0.01) / gmax
@@ -1124,7 +1125,7 @@ def gen_history(name, seed, length, optim=True):
             op = {"op": "assign", "target": n, "value": _perturb(s.target(n).tensor, s.domains[n], rng).tolist()}
         elif r < 0.80 and labels:
             k = rng.choice([1, 1, 2, len(labels)])
-            op = {"op": "eval", "what": rng.sample(labels, min(k, len(labels)))}
+            op = {"op": "eval", "what": rng.sample(labels, min(k, len(labels))), "seed": rng.randrange(10 ** 6)}
         elif r < 0.86 and s.dists:
             op = {"op": rng.choice(["rsample", "sample"]), "dist": rng.choice(list(s.dists)), "seed": rng.randrange(10 ** 6), "shape": []}
         elif r < 0.94 and one_d:
@@ -1637,3 +1638,1097 @@ def _refute(name_detail, scn_name, ops, found, extra=None):
     raise Refuted(name_detail, witness=w,
                   replay={"kind": "custom", "contract": "C11", "func": "replay_history", "args": {"kind": "history", "graph": scn_name, "ops": ops}} if ops else None,
                   confirmed=bool(found))
+
+
+# ================================================================================================
+# (b) handlers invalidate and propagate
+# ================================================================================================
+def _attach_listener(out):
+    from torchtree.core.model import Model
+    L = heap.recording_listener()
+    if isinstance(out, Model):
+        out.add_model_listener(L)
+    else:
+        out.add_parameter_listener(L)
+    return L
+
+
+def _out_reads(s):
+    """read function of a correct downstream client of the object under test: all its evaluations"""
+    labels = [l for l in s.evals if l.startswith(s.out_name + ".")] or list(s.evals)
+
+    def read():
+        out = []
+        for l in labels:
+            r = _evaluate(s, l)
+            out.append(r[1] if r[0] == "ok" else None)
+        return out
+    return read
+
+
+def _replay_downstream(args):
+    """a correct observer-protocol client (ShadowCache) listening to the object under test must be invalidated
+    when a parameter the object depends on is assigned through the public interface"""
+    s = build(args["graph"])
+    from torchtree.core.model import Model
+    sc = heap.ShadowCache(s.out, _out_reads(s), "model" if isinstance(s.out, Model) else "parameter")
+    sc.get()
+    try:
+        t = s.target(args["target"])
+        t.tensor = _tensor_of(args["value"], t.tensor)
+    except Exception as e:
+        return False, "assignment to %s raised %s: %s" % (args["target"], type(e).__name__, e)
+    if sc.consistent():
+        return True, "downstream cache of %s consistent after assigning %s (%d notifications)" % (s.out_name, args["target"], sc.notifications)
+    return False, ("assigning %s changed the value of %s but its listeners were not notified (%d notifications): a downstream "
+                   "cache keeps %s instead of %s" % (args["target"], s.out_name, sc.notifications, _fmt(sc.cached), _fmt(sc._snap(sc.read()))))
+
+
+def _downstream_witness(sn, a, key):
+    s0 = build(sn)
+    rng = random.Random("downstream/" + sn)
+    for n in _params_behind(a, key) or []:
+        if s0.domains.get(n) in (None, "fixed"):
+            continue
+        args = {"kind": "downstream", "graph": sn, "target": n, "value": _perturb(s0.target(n).tensor, s0.domains[n], rng).tolist()}
+        ok, msg = _replay_downstream(args)
+        if not ok:
+            return args, msg
+    return None, None
+
+
+def check_handler(cls_qual, hname, scn_names):
+    """obligation (b) for one class and one handler over all scenarios of the class"""
+    res = {"class": cls_qual, "handler": hname, "scenarios": list(scn_names), "per_scenario": {}, "backend": "heap-proxies+ast"}
+    cls = None
+    for sn in scn_names:
+        a = analyse(sn)
+        cls = a.cls
+        st = handler_static(cls, hname)
+        if st is None:
+            raise Undecided("source of %s.%s unavailable" % (cls_qual, hname))
+        registered = registered_via(a, hname)
+        deps = deps_via(a, hname)
+        info = {"registered": [str(a.reads[k]["label"]) if k in a.reads else str(k) for k in registered],
+                "read_and_notifying": [str(r["label"]) for _, r in deps], "static": st}
+        res["per_scenario"][sn] = info
+        res["statement"] = "%s.%s (defined in %s): never raises; sets %s and propagates whenever a dependency that the class reads notifies through it" % (
+            cls.__name__, hname, st["defined_in"], a.flags or "no flags")
+        # (i) never raises — the handler is invoked the way the graph invokes it: by firing each registered dependency
+        for key in registered:
+            if key in a.fire_errors:
+                err, tb = a.fire_errors[key]
+                ops, found = find_witness(sn, prefer=_params_behind(a, key), kinds=("update-raises",))
+                _refute("%s.%s raises when %s changes: %s" % (cls.__name__, hname, key, err), sn, ops, found,
+                        {"exception": err, "traceback_tail": tb, "handler_static": st})
+        if not deps:
+            info["verdict"] = "no dependency read by the class notifies through this handler: nothing to invalidate or propagate"
+            continue
+        if not st["branch_free"]:
+            info["note"] = "handler has branches: checked per notifying dependency, each dependency separately"
+        # (ii) flags, (iii) propagation: fire each read dependency and look
+        for key, r in deps:
+            dep = r["obj"]
+            for f in a.flags:
+                if f in a.out.__dict__:
+                    object.__setattr__(a.out, f, False)
+            L = _attach_listener(a.out)
+            try:
+                _fire(dep)
+            except Exception as e:
+                raise Undecided("firing %s raised %s after the no-raise check passed" % (key, e))
+            missing = [f for f in a.flags if f in a.out.__dict__ and a.out.__dict__[f] is not True]
+            propagated = bool(L.log)
+            if missing:
+                ops, found = find_witness(sn, prefer=_params_behind(a, key), kinds=("stale",))
+                _refute("%s.%s does not set dirty flag(s) %s when %s changes (the class reads %s.%s and caches behind these flags)"
+                        % (cls.__name__, hname, missing, r["label"], r["label"], sorted(r["members"])), sn, ops, found,
+                        {"dependency": str(r["label"]), "flags_not_set": missing, "handler_static": st})
+            if not propagated:
+                ops, found = find_witness(sn, prefer=_params_behind(a, key), kinds=("stale",))
+                if found:
+                    _refute("%s.%s does not propagate (no fire_model_changed / fire_parameter_changed) when %s changes although the "
+                            "class reads %s.%s" % (cls.__name__, hname, r["label"], r["label"], sorted(r["members"])), sn, ops, found,
+                            {"dependency": str(r["label"]), "handler_static": st})
+                args, msg = _downstream_witness(sn, a, key)
+                raise Refuted("%s.%s does not propagate when %s changes although the value of the object depends on %s.%s: listeners of "
+                              "the object (e.g. a JointDistributionModel caching its log-probability) are not invalidated"
+                              % (cls.__name__, hname, r["label"], r["label"], sorted(r["members"])),
+                              witness={"graph": sn, "dependency": str(r["label"]), "handler_static": st, "observed": msg, "replay_args": args},
+                              replay={"kind": "custom", "contract": "C11", "func": "replay_history", "args": args} if args else None,
+                              confirmed=args is not None)
+        info["verdict"] = "sets %s and propagates for %d notifying dependencies" % (a.flags, len(deps))
+    return res
+
+
+def check_handler_ast_only(cls, hname):
+    """(b) for a concrete class that could not be instantiated: text of the handler only"""
+    st = handler_static(cls, hname)
+    if st is None:
+        raise Undecided("source of %s.%s unavailable" % (_qual(cls), hname))
+    if st["unresolved_self_attributes"]:
+        raise Refuted("%s.%s uses self.%s which is neither defined on the class (MRO) nor assigned in __init__: it raises when invoked"
+                      % (cls.__name__, hname, st["unresolved_self_attributes"]), witness={"handler_static": st}, replay=None, confirmed=False)
+    flags = dirty_flags(cls)
+    if st["is_pass"] and flags:
+        raise Undecided("%s.%s is `pass`, the class has dirty flags %s and could not be instantiated to decide whether a dependency "
+                        "notifies through it" % (cls.__name__, hname, flags))
+    missing = [f for f in flags if f not in st["sets_true"]]
+    if missing and not st["is_pass"]:
+        raise Undecided("%s.%s does not set %s; class not instantiable, reads unknown" % (cls.__name__, hname, missing))
+    return {"backend": "ast", "static": st, "statement": "%s.%s: every self attribute resolves; sets %s; fires %s" % (cls.__name__, hname, st["sets_true"], st["fires"])}
+
+
+# ================================================================================================
+# (c) read set is a subset of the notifying set
+# ================================================================================================
+def check_readset(cls_qual, scn_names):
+    res = {"class": cls_qual, "scenarios": list(scn_names), "per_scenario": {}, "backend": "heap-proxies+ast"}
+    for sn in scn_names:
+        a = analyse(sn)
+        info = {"reads": {str(r["label"]): sorted(r["members"]) for r in a.reads.values()},
+                "notify_through": {str(a.reads[k]["label"]): a.reach.get(k, []) for k in a.reads},
+                "configuration_reads_not_counted": ["%s.%s" % c for c in a.config_reads],
+                "evaluation_errors_outside_C11": a.eval_errors}
+        res["per_scenario"][sn] = info
+        unreached = [(k, r) for k, r in a.reads.items() if not a.reach.get(k)]
+        if unreached:
+            prefer = []
+            for k, r in unreached:
+                prefer += _params_behind(a, k)
+            ops, found = find_witness(sn, prefer=prefer, kinds=("stale",))
+            labels = ["%s.%s (%s)" % (r["label"], sorted(r["members"]), ", ".join(sorted(h.split(":", 1)[-1] if h != "dynamic" else "recorded" for h in r["how"]))[:160]) for _, r in unreached]
+            _refute("%s reads %s but no change notification of these objects reaches the %s: nothing invalidates what it caches or what "
+                    "its listeners cache when they change" % (a.cls.__name__, labels, a.cls.__name__), sn, ops, found,
+                    {"unregistered_reads": labels})
+    res["statement"] = "everything mutable read by the compute methods of %s (recorded reads + static self.<attr> scan) notifies the object" % cls_qual
+    return res
+
+
+# ================================================================================================
+# (d) cached getters
+# ================================================================================================
+def _getter_callable(s, name, kind):
+    out = s.out
+    lab = "%s.%s" % (s.out_name, name)
+    if lab in s.evals:
+        return s.evals[lab]
+    if name == "update" and hasattr(out, "tensor"):
+        return lambda: out.tensor
+    if kind == "property":
+        return lambda: getattr(out, name)
+    return lambda: getattr(out, name)()
+
+
+def _snap(v):
+    if isinstance(v, torch.Tensor):
+        return v.detach().clone()
+    if isinstance(v, (list, tuple)):
+        return [_snap(x) for x in v]
+    return v
+
+
+def getter_shape(cls, name, flag):
+    """AST shape of `if self.<flag>: recompute; self.<flag> = False` in the resolved getter"""
+    k, fn, kind = resolved_functions(cls)[name]
+    node = _fn_ast(fn)
+    shape = {"defined_in": "%s.%s" % (k.__module__, k.__name__), "kind": kind}
+    for x in ast.walk(node):
+        if isinstance(x, ast.If) and _is_self_attr(x.test, flag):
+            shape["else_branch"] = bool(x.orelse)
+            body = x.body
+            idx = [i for i, st in enumerate(body) if isinstance(st, ast.Assign) and any(_is_self_attr(t, flag) for t in st.targets)]
+            shape["reset_is_last_statement_of_guard"] = bool(idx) and idx[-1] == len(body) - 1
+            shape["recompute_statements"] = [ast.unparse(st)[:100] for st in body[: idx[0]]] if idx else []
+            shape["statements_after_reset"] = [ast.unparse(st)[:100] for st in body[idx[-1] + 1:]] if idx else []
+            break
+    other_sets = [ast.unparse(y)[:80] for y in ast.walk(node) if isinstance(y, ast.Assign) and any(_is_self_attr(t, flag) for t in y.targets)
+                  and isinstance(y.value, ast.Constant) and y.value.value is True]
+    shape["sets_flag_true_itself"] = other_sets
+    return shape
+
+
+def check_getter(cls_qual, name, flag, scn_names):
+    res = {"class": cls_qual, "getter": name, "flag": flag, "scenarios": list(scn_names), "per_scenario": {}, "backend": "heap-proxies+ast"}
+    for sn in scn_names:
+        a = analyse(sn)
+        s, out, rec = a.scn, a.out, a.rec
+        cls = a.cls
+        if flag not in out.__dict__:
+            continue
+        kind = resolved_functions(cls)[name][2]
+        shape = getter_shape(cls, name, flag)
+        info = {"shape": shape}
+        res["per_scenario"][sn] = info
+        if not shape.get("reset_is_last_statement_of_guard") and shape.get("statements_after_reset"):
+            # statements after the reset read dependencies: a recomputation after `flag = False` is fine, it is the unconditional reset that matters
+            info["note"] = "guard body continues after the reset"
+        get = _getter_callable(s, name, kind)
+        allflags = [f for f in a.flags if f in out.__dict__]
+
+        def force():
+            for f in allflags:
+                object.__setattr__(out, f, True)
+
+        def fresh_value():
+            fs = build(sn, s.state())
+            with _rng_frozen(99):
+                return _snap(_getter_callable(fs, name, kind)())
+        # d2: dirty -> recompute from current dependencies, flag cleared, second call served from the cache
+        try:
+            force()
+            mark = rec.mark()
+            with _rng_frozen(99):
+                v1 = _snap(get())
+        except Exception as e:
+            ef = None
+            try:
+                fresh_value()
+            except Exception as e2:
+                ef = e2
+            if ef is not None and type(ef) is type(e):
+                info["verdict"] = "evaluation raises for reasons outside C11 on a fresh copy too (%s): shape checked only" % type(e).__name__
+                if shape.get("recompute_statements") is None:
+                    raise Undecided("getter cannot be evaluated and its shape is not recognised")
+                continue
+            raise Refuted("%s.%s raises %s: %s although a fresh copy evaluates" % (cls.__name__, name, type(e).__name__, e), witness={"graph": sn}, confirmed=False)
+        lost = [e for e in rec.since(mark) if e[0] == "handle" and e[1] == s.out_name]
+        if out.__dict__[flag] is not False:
+            raise Refuted("%s.%s leaves %s = %r after recomputing" % (cls.__name__, name, flag, out.__dict__[flag]), witness={"graph": sn, "shape": shape}, confirmed=False)
+        if lost:
+            # a notification arrived while the value was being computed and `flag = False` afterwards discards it
+            ops = [{"op": "eval", "what": [l for l in s.evals if l.startswith(s.out_name + ".")][:1] or "*", "seed": 1},
+                   {"op": "eval", "what": [l for l in s.evals if l.startswith(s.out_name + ".")][:1] or "*", "seed": 2}]
+            found, _ = run_history(sn, ops)
+            _refute("%s.%s: %d change notification(s) (from %s) reach the object while %s is computing (the computation itself draws / assigns "
+                    "parameters) and the unconditional `%s = False` after the computation discards them: the next call returns the cached "
+                    "value although the parameters it was computed from have been replaced; a freshly built copy with the same parameter "
+                    "values (same RNG seed) returns a different value" % (cls.__name__, name, len(lost), sorted({str(e[3]) for e in lost}), name, flag),
+                    sn, ops, found, {"shape": shape, "notifications_during_compute": [list(map(str, e)) for e in lost[:4]]})
+        fv = fresh_value()
+        if not heap.same_value(v1, fv, ATOL, ATOL):
+            ops, found = find_witness(sn, kinds=("stale",))
+            _refute("%s.%s recomputed with %s=True differs from a fresh copy: %s vs %s" % (cls.__name__, name, flag, _fmt(v1), _fmt(fv)), sn, ops, found, {"shape": shape})
+        mark = rec.mark()
+        with _rng_frozen(98):
+            v2 = _snap(get())
+        reread = [e for e in rec.since(mark) if e[0] == "read" and e[1] == s.out_name and e[2] != s.out_name and e[3] not in heap.NON_VALUE]
+        info["second_call_served_from_cache"] = not reread
+        if not heap.same_value(v1, v2, ATOL, ATOL):
+            raise Refuted("%s.%s returns a different value on a second call without any update" % (cls.__name__, name), witness={"graph": sn}, confirmed=False)
+        # d2': after a public update of each dependency (handler assumed correct: all flags raised), the getter
+        # recomputes from the CURRENT values
+        rng = random.Random("getter/%s/%s" % (sn, name))
+        n_upd = 0
+        for key, r in a.reads.items():
+            for pn in _params_behind(a, key):
+                if s.domains.get(pn) in (None, "fixed"):
+                    continue
+                try:
+                    s.target(pn).tensor = _perturb(s.target(pn).tensor, s.domains[pn], rng)
+                except Exception:
+                    continue   # a raising update is obligation (a)/(b)
+                force()
+                with _rng_frozen(99):
+                    v3 = _snap(get())
+                fv = fresh_value()
+                n_upd += 1
+                if not heap.same_value(v3, fv, ATOL, ATOL):
+                    raise Refuted("%s.%s with all dirty flags raised does not recompute from the current value of %s: %s vs fresh %s"
+                                  % (cls.__name__, name, pn, _fmt(v3), _fmt(fv)), witness={"graph": sn, "parameter": pn, "shape": shape}, confirmed=True)
+        info["updates_checked"] = n_upd
+        info["verdict"] = "dirty -> recomputed from current dependencies (= fresh copy), flag cleared, second call cached, no notification during compute"
+    res["statement"] = "%s.%s: if %s: recompute from current dependencies; %s := False; return cache — and no notification is lost" % (cls_qual, name, flag, flag)
+    return res
+
+
+# ================================================================================================
+# (a) mutators notify
+# ================================================================================================
+@scenario("param.kinds")
+def _s(s):
+    """every parameter kind over shared bases, so that a mutation through one kind must invalidate the others"""
+    from torchtree.core.parameter import CatParameter, TransformedParameter, ViewParameter
+    a = s.P("a", [0.5, 1.5, 2.5, 0.7], "pos")
+    b = s.P("b", [0.3], "pos")
+    z = s.P("z", [0.1, -0.2], "real")
+    v = s.D("a.view", ViewParameter("a.view", a, slice(1, 3)), "pos")
+    s.D("a.view_idx", ViewParameter("a.view_idx", a, torch.tensor([0, 3])), "pos")
+    s.D("a.view_overlap", ViewParameter("a.view_overlap", a, slice(2, 4)), "pos")
+    s.D("ab.cat", CatParameter("ab.cat", [a, b], -1), "pos")
+    s.D("vb.cat", CatParameter("vb.cat", [v, b], -1), "pos")
+    t = s.D("z.exp", TransformedParameter("z.exp", z, torch.distributions.ExpTransform()), "pos")
+    s.D("zb.affine", TransformedParameter("zb.affine", [z, b], torch.distributions.AffineTransform(0.5, 2.0)), "real")
+    s.D("v.exp", TransformedParameter("v.exp", v, torch.distributions.ExpTransform()), "pos")
+    s.D("z.exp.view", ViewParameter("z.exp.view", z, slice(0, 1)), "real")
+    s.E("z.exp.__call__", lambda: t())
+
+
+def _watch_all(s):
+    """a correct protocol client on every parameter-like object of the scenario"""
+    ws = OrderedDict()
+    for n, o in list(s.params.items()) + list(s.derived.items()):
+        ws[n] = heap.ShadowCache(o, (lambda o=o: o.tensor), "parameter")
+    for w in ws.values():
+        w.get()
+    return ws
+
+
+def _check_watchers(ws, what, replay_args):
+    bad = [n for n, w in ws.items() if not w.consistent()]
+    if bad:
+        w = ws[bad[0]]
+        raise Refuted("%s: the value of %s changed but the listeners registered on %s were not notified (a cache derived from it keeps %s, "
+                      "current value %s)" % (what, bad, bad, _fmt(w.cached), _fmt(w._snap(w.read()))),
+                      witness={"stale_listeners_of": bad, "replay_args": replay_args},
+                      replay={"kind": "custom", "contract": "C11", "func": "replay_history", "args": replay_args}, confirmed=True)
+    return {n: w.notifications for n, w in ws.items()}
+
+
+def _mutation(args):
+    """perform the named mutation on the real objects of scenario args['graph']; shared by obligation and replay"""
+    s = build(args["graph"])
+    ws = _watch_all(s)
+    m = args["mutation"]
+    tgt = s.target(args["target"]) if "target" in args else None
+    with _rng_frozen(args.get("seed", 5)):
+        if m == "tensor.setter":
+            tgt.tensor = _tensor_of(args["value"], tgt.tensor)
+        elif m == "requires_grad.setter":
+            tgt.requires_grad = args["value"]
+        elif m in ("rsample", "sample"):
+            getattr(s.dists[args["dist"]], m)(torch.Size(args.get("shape", [])))
+        elif m == "pack_tensor":
+            from torchtree.core.parameter_utils import pack_tensor
+            ps = [s.target(n) for n in args["targets"]]
+            pack_tensor(ps, _tensor_of(args["value"]))
+        elif m == "set_tensor":
+            from torchtree.inference.hmc.integrator import set_tensor
+            ps = [s.target(n) for n in args["targets"]]
+            set_tensor(ps, _tensor_of(args["value"]))
+            for p in ps:
+                p.requires_grad = False
+        elif m in ("operator.step", "operator.step+reject", "operator.step+accept"):
+            op = _make_operator(s, args)
+            op.step()
+            if m.endswith("reject"):
+                op.reject()
+            elif m.endswith("accept"):
+                op.accept()
+        else:
+            raise ValueError(m)
+    return s, ws
+
+
+def _make_operator(s, args):
+    from torchtree.inference.mcmc import operator as mop
+    name = args["operator"]
+    ps = [s.target(n) for n in args["targets"]]
+    if name == "ScalerOperator":
+        return mop.ScalerOperator("op", ps, 1.0, 0.24, 0.5)
+    if name == "SlidingWindowOperator":
+        return mop.SlidingWindowOperator("op", ps, 1.0, 0.24, 0.5)
+    if name == "DirichletOperator":
+        return mop.DirichletOperator("op", ps, 1.0, 0.24, 100.0)
+    if name == "HMCOperator":
+        from torchtree.core.parameter import Parameter
+        from torchtree.inference.hmc.integrator import LeapfrogIntegrator
+        from torchtree.inference.hmc.operator import HMCOperator
+        dim = sum(p.shape[-1] for p in ps)
+        return HMCOperator("op", s.models[args["joint"]], ps, LeapfrogIntegrator("lf", 2, 0.05), Parameter("mass", torch.ones(dim)), 1.0, 0.8, [])
+    if name == "GMRFPiecewiseCoalescentBlockUpdatingOperator":
+        from torchtree.inference.mcmc.gmrf_block_updating import GMRFPiecewiseCoalescentBlockUpdatingOperator
+        return GMRFPiecewiseCoalescentBlockUpdatingOperator("op", s.models["coalescent"], s.models["gmrf"], 1.0, 0.24, 2.0)
+    raise ValueError(name)
+
+
+def _replay_mutation(args):
+    try:
+        s, ws = _mutation(args)
+    except Exception as e:
+        return False, "%s raised %s: %s" % (args["mutation"], type(e).__name__, str(e)[:200])
+    bad = [n for n, w in ws.items() if not w.consistent()]
+    if bad:
+        return False, "after %s the listeners of %s hold a stale value" % (args["mutation"], bad)
+    return True, "after %s every listener is invalidated or still exact" % args["mutation"]
+
+
+def check_mutation(what, args, must_notify=(), deliberate_raise=None):
+    """obligation (a): after the mutation no correct protocol client holds a stale value; the mutation does not raise"""
+    args = dict(args, kind="mutation")
+    try:
+        s, ws = _mutation(args)
+    except Exception as e:
+        tb = traceback.format_exc().strip().splitlines()
+        raise Refuted("%s raises %s: %s" % (what, type(e).__name__, str(e)[:200]),
+                      witness={"replay_args": args, "traceback_tail": tb[-4:]},
+                      replay={"kind": "custom", "contract": "C11", "func": "replay_history", "args": args}, confirmed=True)
+    counts = _check_watchers(ws, what, args)
+    silent = [n for n in must_notify if counts.get(n, 0) == 0]
+    if silent:
+        raise Refuted("%s: no notification reached the listeners of %s" % (what, silent), witness={"replay_args": args, "notifications": counts},
+                      replay={"kind": "custom", "contract": "C11", "func": "replay_history", "args": args}, confirmed=True)
+    changed = [n for n, w in ws.items() if not heap.same_value(w.cached, w._snap(w.read()))] if False else None
+    return {"backend": "heap-proxies", "notifications": counts,
+            "statement": "%s returns normally and every listener registered on any parameter whose value changed has been notified" % what}
+
+
+_PARAM_VALUES = {"a": [0.9, 1.1, 2.0, 0.4], "b": [0.8], "z": [0.5, -0.7], "a.view": [1.1, 2.0], "a.view_idx": [0.9, 0.4],
+                 "a.view_overlap": [2.2, 0.6], "ab.cat": [0.9, 1.1, 2.0, 0.4, 0.8], "vb.cat": [1.3, 2.1, 0.6], "z.exp": [1.5, 0.6],
+                 "zb.affine": [1.5, 0.1, 2.5], "v.exp": [3.0, 4.0], "z.exp.view": [0.9]}
+
+
+def _setter_is_deliberate_raise(cls, prop):
+    p = None
+    for k in cls.__mro__:
+        if prop in k.__dict__ and isinstance(k.__dict__[prop], property):
+            p = k.__dict__[prop]
+            break
+    if p is None or p.fset is None:
+        return True
+    node = _fn_ast(p.fset)
+    return node is not None and all(isinstance(st, ast.Raise) or (isinstance(st, ast.Expr) and isinstance(st.value, ast.Constant)) for st in node.body)
+
+
+def _optimizer_run(args):
+    """drive the real Optimizer._run / _run_closure; returns list of problems"""
+    from torchtree.optim.optimizer import Optimizer
+    s = build("graph.joint_parameter_kinds")
+    loss = s.models["joint"]
+    names = args.get("targets", ["prior.a.loc", "prior.z.loc", "z"])
+    ps = [s.params[n] for n in names]
+    ws = _watch_all(s)
+    problems = []
+    events = []
+    real_call = loss._call
+
+    def checked_call(*a, **k):
+        events.append("eval")
+        bad = [n for n, w in ws.items() if not w.consistent()]
+        if bad:
+            problems.append("loss evaluated while the listeners of %s hold a stale value (no notification since the in-place step)" % bad)
+        return real_call(*a, **k)
+    object.__setattr__(loss, "_call", checked_call)
+    for p in ps:
+        p.requires_grad = True
+    if args.get("algorithm") == "LBFGS":
+        topt = torch.optim.LBFGS([p.tensor for p in ps], lr=0.1, max_iter=2)
+    else:
+        topt = torch.optim.SGD([p.tensor for p in ps], lr=0.01)
+    real_step = topt.step
+
+    def step(*a, **k):
+        events.append("step")
+        return real_step(*a, **k)
+    topt.step = step
+    opt = Optimizer("opt", ps, loss, topt, args.get("iterations", 3), checkpoint=None, maximize=True)
+    import contextlib
+    import io
+    with contextlib.redirect_stdout(io.StringIO()):
+        opt.run()
+    object.__delattr__(loss, "_call")
+    bad = [n for n, w in ws.items() if not w.consistent()]
+    if bad:
+        problems.append("after Optimizer.run returned the listeners of %s hold a stale value: the last in-place step was not followed by a notification" % bad)
+    # and the models: every evaluation equals a freshly built copy with the optimised values
+    for p in ps:
+        p.requires_grad = False
+    d = compare_with_fresh(s, list(s.evals), -1)
+    if d:
+        problems.append("after Optimizer.run: %s" % d[:2])
+    return problems, events
+
+
+def _replay_optimizer(args):
+    problems, events = _optimizer_run(args)
+    if problems:
+        return False, "; ".join(problems)[:1500]
+    return True, "Optimizer.run (%s): %d steps, every step followed by a notification before the next evaluation" % (args.get("algorithm", "SGD"), events.count("step"))
+
+
+def check_optimizer(args):
+    args = dict(args, kind="optimizer")
+    try:
+        problems, events = _optimizer_run(args)
+    except Exception as e:
+        raise Undecided("Optimizer scenario could not be run: %s: %s" % (type(e).__name__, e))
+    if events.count("step") == 0:
+        raise Undecided("optimizer made no step")
+    if problems:
+        raise Refuted(problems[0], witness={"replay_args": args, "problems": problems[:4], "events": events[:40]},
+                      replay={"kind": "custom", "contract": "C11", "func": "replay_history", "args": args}, confirmed=True)
+    return {"backend": "heap-proxies", "events": events[:30],
+            "statement": "every optimizer.step() of the real Optimizer loop is followed by fire_parameter_changed on each optimised parameter before any model is evaluated, and at exit"}
+
+
+# ================================================================================================
+# end-to-end cross-validation (bounded, tag B)
+# ================================================================================================
+def check_dyn(graph, seed, n_hist, length):
+    total_ops = 0
+    for k in range(n_hist):
+        ops = gen_history(graph, seed * 1000 + k, length)
+        total_ops += len(ops)
+        found, _ = run_history(graph, ops)
+        if found:
+            small = minimise_history(graph, ops)
+            found2, _ = run_history(graph, small)
+            f = (found2 or found)[0]
+            raise Refuted("history of %d public operations on graph %s: %s" % (len(small), graph, {k2: v for k2, v in f.items() if k2 != "op"}),
+                          witness={"graph": graph, "ops": small, "observed": (found2 or found)[:3], "history_seed": seed * 1000 + k},
+                          replay={"kind": "custom", "contract": "C11", "func": "replay_history", "args": {"kind": "history", "graph": graph, "ops": small}},
+                          confirmed=bool(found2))
+    return {"backend": "concrete", "cases": n_hist, "operations": total_ops,
+            "statement": "%d seeded histories (%d public operations) on the real graph %s: every evaluation equals a freshly built copy holding the same parameter values (atol %g)"
+                         % (n_hist, total_ops, graph, ATOL)}
+
+
+_CLASS_OBS = {}   # "module.Class" -> [(obligation name, fn)]   filled by obligations() before the pool forks
+
+
+def _explanations(scn_name):
+    """names of contract obligations (a)-(d) refuted for a class that occurs in the scenario"""
+    s = build(scn_name)
+    quals = []
+    for o in s.all_objects().values():
+        q = _qual(o)
+        if q not in quals:
+            quals.append(q)
+    # internal helpers (CatParameter inside TransformedParameter, Container, ...)
+    out = []
+    for q in quals:
+        for name, fn in _CLASS_OBS.get(q, []):
+            try:
+                fn()
+            except Refuted as e:
+                out.append(name)
+            except Exception:
+                pass
+    return out
+
+
+def check_dyn_class(scn_name, seed, n_hist, length):
+    try:
+        return check_dyn(scn_name, seed, n_hist, length)
+    except Refuted as e:
+        why = _explanations(scn_name)
+        if why:
+            return {"backend": "concrete", "explained_by": why, "trivial": True,
+                    "statement": "staleness found on scenario %s (%s) is explained by the refuted contract obligation(s) %s" % (scn_name, e.detail[:200], why)}
+        e.detail = "staleness that NO (a)-(d) obligation explains — " + e.detail
+        raise
+
+
+# ================================================================================================
+# vacuity: must-fail twins (local subclasses of correct real classes)
+# ================================================================================================
+@scenario("twin.handler_pass", "twin.BadSiteModel")
+def _s(s):
+    from torchtree.evolution.site_model import InvariantSiteModel
+
+    class BadSiteModel(InvariantSiteModel):
+        __module__ = "torchtree._vt_twin"
+
+        def handle_parameter_changed(self, variable, index, event):
+            pass
+    m = s.M("site", BadSiteModel("site", s.P("site.pinv", [0.2], "unit"), s.P("site.mu", [1.5], "pos")), out=True)
+    s.E("site.rates", m.rates)
+    s.E("site.probabilities", m.probabilities)
+
+
+@scenario("twin.handler_no_propagate", "twin.BadTreeModel")
+def _s(s):
+    from torchtree.evolution import tree_model as tmod
+    from torchtree.evolution.coalescent import ConstantCoalescentModel
+
+    class BadTreeModel(tmod.TimeTreeModel):
+        __module__ = "torchtree._vt_twin"
+
+        def handle_parameter_changed(self, variable, index, event):
+            self.branch_lengths_need_update = True
+            self.heights_need_update = True
+    taxa = _taxa()
+    tm = s.M("tree", BadTreeModel("tree", _dendro(taxa), taxa, s.P("tree.heights", [0.5, 0.6, 1.0], "scale")), out=True)
+    s.E("tree.branch_lengths", tm.branch_lengths)
+    s.E("tree.node_heights", lambda: tm.node_heights)
+    coal = s.M("coalescent", ConstantCoalescentModel("coalescent", s.P("theta", [3.0], "pos"), tm))
+    s.E("coalescent.__call__", lambda: coal())
+
+
+@scenario("twin.unregistered_read", "twin.BadHKY")
+def _s(s):
+    from torchtree.evolution.substitution_model.nucleotide import HKY
+
+    class BadHKY(HKY):
+        __module__ = "torchtree._vt_twin"
+
+        def __init__(self, id_, kappa, frequencies, extra):
+            super().__init__(id_, kappa, frequencies)
+            self.extra = [extra]     # kept in a list: Parametric.__setattr__ does not register it
+
+        def q(self):
+            return super().q() * self.extra[0].tensor
+    m = s.M("subst", BadHKY("subst", s.P("subst.kappa", [2.0], "pos"), s.P("subst.freqs", [0.2, 0.3, 0.25, 0.25], "simplex"),
+                            s.P("subst.extra", [1.5], "pos")), out=True)
+    _subst_evals(s, m, "subst")
+
+
+@scenario("twin.getter_no_recompute", "twin.BadGetterSiteModel")
+def _s(s):
+    from torchtree.evolution.site_model import InvariantSiteModel
+
+    class BadGetterSiteModel(InvariantSiteModel):
+        __module__ = "torchtree._vt_twin"
+
+        def rates(self):
+            if self.needs_update:
+                if self._rates is None:
+                    self.update_rates_probs(self.invariant)
+                self.needs_update = False
+            return self._rates
+    m = s.M("site", BadGetterSiteModel("site", s.P("site.pinv", [0.2], "unit"), s.P("site.mu", [1.5], "pos")), out=True)
+    s.E("site.rates", m.rates)
+
+
+@scenario("twin.getter_lost_notification", "twin.SelfMutatingModel")
+def _s(s):
+    from torchtree.core.model import CallableModel
+
+    class SelfMutatingModel(CallableModel):
+        __module__ = "torchtree._vt_twin"
+
+        def __init__(self, id_, x):
+            super().__init__(id_)
+            self.x = x
+
+        def _call(self, *args, **kwargs):
+            self.x.tensor = torch.randn(self.x.tensor.shape)   # draws inside the computation, like the variational objectives
+            return self.x.tensor.sum()
+
+        def _sample_shape(self):
+            return torch.Size([])
+
+        @classmethod
+        def from_json(cls, data, dic):
+            raise NotImplementedError
+    m = s.M("m", SelfMutatingModel("m", s.P("x", [0.1, 0.2], "real")), out=True)
+    s.stochastic = True
+    s.E("m.__call__", lambda: m())
+
+
+@scenario("twin.setter_no_fire")
+def _s(s):
+    from torchtree.core.parameter import Parameter, ViewParameter
+
+    class SilentParameter(Parameter):
+        __module__ = "torchtree._vt_twin"
+
+        @property
+        def tensor(self):
+            return self._tensor
+
+        @tensor.setter
+        def tensor(self, tensor):
+            self._tensor = tensor
+    p = SilentParameter("p", torch.tensor(s.vals.get("p", [0.5, 1.5, 2.5])))
+    s.params["p"] = p
+    s.domains["p"] = "real"
+    s.D("p.view", ViewParameter("p.view", p, slice(0, 2)), "real")
+    s.E("p.tensor", lambda: p.tensor)
+
+
+def _expect_refuted(fn, what, need_confirmed=True):
+    try:
+        fn()
+    except Refuted as e:
+        if need_confirmed and not e.confirmed:
+            raise Refuted("must-fail twin %s was refuted but the replay on real objects did not reproduce it: %s" % (what, e.detail[:300]), confirmed=False)
+        return e.detail[:200]
+    raise Refuted("vacuity: the must-fail twin %s was NOT refuted — the obligation family cannot fail" % what, witness={"twin": what}, confirmed=False)
+
+
+def vacuity_handlers():
+    d1 = _expect_refuted(lambda: check_handler("twin.BadSiteModel", "handle_parameter_changed", ["twin.handler_pass"]), "handler `pass` on InvariantSiteModel (b.ii)")
+    d2 = _expect_refuted(lambda: check_handler("twin.BadTreeModel", "handle_parameter_changed", ["twin.handler_no_propagate"]), "TimeTreeModel handler without fire_model_changed (b.iii)")
+    d3 = _expect_refuted(lambda: check_dyn("twin.handler_pass", 0, 4, 30), "dyn on handler `pass` twin")
+    d4 = _expect_refuted(lambda: check_dyn("twin.handler_no_propagate", 0, 4, 30), "dyn on non-propagating twin")
+    # and the correct parents are not refuted by the same functions
+    check_handler("torchtree.evolution.site_model.InvariantSiteModel", "handle_parameter_changed", ["site.invariant"])
+    return {"backend": "twins", "refuted": [d1, d2, d3, d4], "statement": "(b) and dyn refute a `pass` handler and a non-propagating handler twin; the real parent classes pass the same functions"}
+
+
+def vacuity_readset():
+    d1 = _expect_refuted(lambda: check_readset("twin.BadHKY", ["twin.unregistered_read"]), "model reading a parameter kept in a plain list (c)")
+    check_readset("torchtree.evolution.substitution_model.nucleotide.HKY", ["subst.hky"])
+    return {"backend": "twins", "refuted": [d1], "statement": "(c) refutes a model that reads a parameter it did not register; the real parent passes"}
+
+
+def vacuity_getters():
+    d1 = _expect_refuted(lambda: check_getter("twin.BadGetterSiteModel", "rates", "needs_update", ["twin.getter_no_recompute"]), "getter that clears the flag without recomputing (d)")
+    d2 = _expect_refuted(lambda: check_getter("twin.SelfMutatingModel", "__call__", "lp_needs_update", ["twin.getter_lost_notification"]), "CallableModel whose _call assigns its own parameter (d: lost notification)")
+    check_getter("torchtree.evolution.site_model.InvariantSiteModel", "rates", "needs_update", ["site.invariant"])
+    return {"backend": "twins", "refuted": [d1, d2], "statement": "(d) refutes a getter that does not recompute and a getter that loses a notification; the real parent passes"}
+
+
+def vacuity_mutators():
+    d1 = _expect_refuted(lambda: check_mutation("SilentParameter.tensor.setter", {"graph": "twin.setter_no_fire", "mutation": "tensor.setter", "target": "p", "value": [1.0, 2.0, 3.0]}),
+                         "Parameter subclass whose setter does not fire (a)")
+    check_mutation("Parameter.tensor.setter", {"graph": "param.kinds", "mutation": "tensor.setter", "target": "a", "value": _PARAM_VALUES["a"]})
+    return {"backend": "twins", "refuted": [d1], "statement": "(a) refutes a setter that does not fire; the real setter passes"}
+
+
+# ================================================================================================
+# discovery / coverage
+# ================================================================================================
+def discover():
+    from torchtree.core.abstractparameter import AbstractParameter
+    from torchtree.core.model import Model
+    imported, failed = heap.import_all()
+    classes = []
+    for c in heap.all_subclasses(Model) + heap.all_subclasses(AbstractParameter):
+        if c not in classes and c.__module__.startswith("torchtree") and not c.__module__.startswith("torchtree._vt_twin"):
+            classes.append(c)
+    classes.sort(key=lambda c: (c.__module__, c.__name__))
+    return classes, imported, failed
+
+
+def _scenarios_by_class():
+    d = OrderedDict()
+    for sn, q in SCN_CLASS.items():
+        if not q.startswith("twin."):
+            d.setdefault(q, []).append(sn)
+    return d
+
+
+def _anchored(cls):
+    try:
+        f = inspect.getsourcefile(cls) or ""
+    except TypeError:
+        f = ""
+    return any(f.endswith(a) for a in ANCHOR_FILES)
+
+
+def check_coverage():
+    classes, imported, failed = discover()
+    by = _scenarios_by_class()
+    inst, ast_only, abstract = [], [], []
+    for c in classes:
+        q = _qual(c)
+        if heap.is_abstract(c):
+            abstract.append(c.__name__)
+        elif q in by:
+            inst.append(c.__name__)
+        else:
+            ast_only.append(c.__name__)
+    if not classes or not inst:
+        raise Refuted("vacuity: no Model/AbstractParameter subclass discovered or instantiated", confirmed=False)
+    missing = [q for q in by if q not in {_qual(c) for c in classes}]
+    if missing:
+        raise Undecided("scenario classes no longer exist in the working tree: %s" % missing)
+    hits = heap.scan_type_identity_checks(imported)
+    return {"backend": "discovery", "classes": len(classes), "instantiated": inst, "ast_only": ast_only, "abstract": abstract,
+            "import_failures": failed, "type_identity_checks": hits,
+            "statement": "%d modules imported (%d failed: %s); %d Model/AbstractParameter subclasses: %d instantiated with real inputs %s; "
+                         "%d concrete without scenario (AST only) %s; %d abstract, covered through the handlers their concrete subclasses resolve to %s; "
+                         "`type(x) is` checks that a proxy subclass would not satisfy: %s"
+                         % (len(imported), len(failed), [f[0] for f in failed], len(classes), len(inst), inst, len(ast_only), ast_only, len(abstract), abstract, hits or "none")}
+
+
+# ================================================================================================
+# assembly
+# ================================================================================================
+META = {
+    "level": "proof",
+    "explanation": "The global invariant (not dirty(o) => cache(o) = compute(o, current values)) is derived on paper "
+                   "(contracts/C11.md: induction on the length of the history and on the dependency DAG) from four families of "
+                   "per-class obligations that are decided here on the REAL classes: (a) every public mutator leaves every "
+                   "observer-protocol client invalidated, (b) every resolved handler never raises, sets every dirty flag and "
+                   "propagates whenever the class reads a dependency that notifies through it, (c) everything mutable the compute "
+                   "methods read notifies the object (recording proxies + static self.<attr> scan), (d) cached getters recompute "
+                   "from current dependencies, clear the flag and lose no notification. Handlers, getters and setters are "
+                   "straight-line code over the listener lists, so one execution with recording proxies plus the AST shape check "
+                   "covers every value and every history (tag U). C11.dyn.* obligations are bounded cross-validation (tag B) and are "
+                   "not part of the proof; C11.vacuity.* / C11.coverage.* are guards.",
+    "bound": "(a)-(d): unbounded in values and history length (per-class, by the observer argument); object graphs: one or more "
+             "instantiations per concrete class (all optional collaborators supplied). dyn (B): quick 6 histories x 40 operations per "
+             "graph, 3 x 30 per class scenario; thorough 40 x 80 and 10 x 60.",
+    "exhaustive": False,
+    "trusted_base": [
+        "contracts/C11.md: the paper argument from obligations (a)-(d) to the global invariant (not machine-checked)",
+        "CPython 3.12 executes the real handlers / setters / getters; recording proxies are subclasses of the real classes that only "
+        "override __getattribute__/__call__ to log (vt/heap.py); `type(x) is C` checks are scanned for (C11.coverage.classes)",
+        "torch tensors: `t[..., idx] = v` writes through to the base tensor; torch.distributions transforms/distributions are pure "
+        "functions of their arguments",
+        "AST pattern for cached getters: `if self.<flag>: ...; self.<flag> = False` (a cache that is not guarded by such a flag is not "
+        "seen by (d); it is seen by (c) only through what it reads and by the bounded dyn family)",
+    ],
+    "assumptions": [
+        "single-threaded use: a notification can reach an object during its own computation only if the computation itself mutates parameters",
+        "plain data attributes of collaborators that no handler / cached-getter recomputation writes (tree topology: preorder, postorder, "
+        "taxa_count, sampling_times; site patterns) are not changed by parameter updates",
+        "values are compared with torch.allclose(atol=rtol=1e-12); random draws are made reproducible by seeding torch's global RNG "
+        "identically on the live graph and on the fresh copy (the RNG state is treated as an input of stochastic objectives)",
+        "tensors handed to a setter are not mutated in place afterwards by the caller without a notification (the statement's "
+        "'in-place optimiser steps followed by the change notification')",
+        "device / dtype moves (to, cuda, cpu) are outside the statement",
+    ],
+}
+
+MANIFEST = {
+    "category": "proof",
+    "text": "Per-class contracts on the real torchtree classes (every Model / AbstractParameter subclass found by importing all "
+            "modules): (a) public mutators notify, (b) handlers never raise, invalidate every dirty flag and propagate when the class "
+            "reads a notifying dependency, (c) read set is a subset of the notifying set (recording proxies + AST over-approximation), "
+            "(d) cached getters recompute from current dependencies and lose no notification. The global no-stale-cache invariant "
+            "for all histories follows by the observer argument of contracts/C11.md (induction on history length and dependency DAG).",
+    "note": "The step from the per-class obligations to the global invariant is a paper proof. Object graphs are covered through "
+            "instantiations of each concrete class with all optional collaborators; abstract classes through the handlers their "
+            "subclasses resolve to. Stochastic objectives are compared under a synchronised RNG. C11.dyn.* (random histories against "
+            "freshly built copies) is bounded cross-validation, reported separately and never counted as proof.",
+    "technique": "sidecar contracts on the real classes + recording heap proxies (dynamic subclasses of the real classes) + AST shape "
+                 "checks of handlers/getters + paper observer argument; bounded differential testing against fresh copies as cross-check",
+}
+
+
+def _gen_funcs():
+    out = []
+    try:
+        classes, _, _ = discover()
+    except Exception:
+        return out
+    for c in classes:
+        for k in (c,):
+            for name, v in k.__dict__.items():
+                q = None
+                if name in heap.HANDLERS and inspect.isfunction(v):
+                    q = "%s:%s.%s" % (k.__module__, k.__qualname__, name)
+                elif isinstance(v, property) and name in ("tensor", "requires_grad", "node_heights", "shape"):
+                    q = "%s:%s.%s" % (k.__module__, k.__qualname__, name)
+                elif inspect.isfunction(v) and name in ("__call__", "_call", "rates", "probabilities", "branch_lengths", "update", "q",
+                                                        "rsample", "sample", "fire_parameter_changed", "fire_model_changed",
+                                                        "update_node_heights", "update_rates", "update_rates_probs", "_apply_transform"):
+                    q = "%s:%s.%s" % (k.__module__, k.__qualname__, name)
+                if q and q not in out:
+                    out.append(q)
+    out += ["torchtree.core.parametric:Parametric.__setattr__", "torchtree.core.parametric:Parametric.register_parameter",
+            "torchtree.core.parametric:Parametric.register_model", "torchtree.core.parameter_utils:pack_tensor",
+            "torchtree.inference.hmc.integrator:set_tensor", "torchtree.inference.mcmc.operator:MCMCOperator.step",
+            "torchtree.inference.mcmc.operator:MCMCOperator.reject", "torchtree.inference.mcmc.operator:ScalerOperator._step",
+            "torchtree.inference.mcmc.operator:SlidingWindowOperator._step", "torchtree.inference.mcmc.operator:DirichletOperator._step",
+            "torchtree.inference.hmc.operator:HMCOperator._step", "torchtree.optim.optimizer:Optimizer._run",
+            "torchtree.optim.optimizer:Optimizer._run_closure"]
+    return out
+
+
+FUNCS = _gen_funcs()
+
+
+def _undecided_ob(name, reason, clause):
+    def fn():
+        raise Undecided(reason)
+    return Ob(name, "U", fn, clause=clause, funcs=FUNCS, timeout=60)
+
+
+def obligations(tier, seed):
+    from torchtree.core.abstractparameter import AbstractParameter
+    obs = []
+    quick = tier == "quick"
+
+    def add(name, fn, clause, tag="U", timeout=600):
+        obs.append(Ob(name, tag, fn, clause=clause, funcs=FUNCS, timeout=timeout))
+
+    add("C11.coverage.classes", check_coverage, "guard: class discovery and coverage")
+    classes, imported, failed = discover()
+    by = _scenarios_by_class()
+    names = [c.__name__ for c in classes]
+    _CLASS_OBS.clear()
+
+    def short(c):
+        return c.__name__ if names.count(c.__name__) == 1 else _qual(c)
+
+    inst, ast_only, undecided_classes = [], [], []
+    for c in classes:
+        if heap.is_abstract(c):
+            continue
+        q = _qual(c)
+        scns = by.get(q, [])
+        mine = _CLASS_OBS.setdefault(q, [])
+        (inst if scns else ast_only).append(c.__name__)
+        for h in heap.HANDLERS:
+            if not hasattr(c, h):
+                continue
+            nm = "C11.b.handler[%s.%s]" % (q, h)
+            fn = (lambda q=q, h=h, scns=scns: check_handler(q, h, scns)) if scns else (lambda c=c, h=h: check_handler_ast_only(c, h))
+            add(nm, fn, "(b) handlers invalidate and propagate")
+            mine.append((nm, fn))
+        nm = "C11.c.readset[%s]" % short(c)
+        if scns:
+            fn = (lambda q=q, scns=scns: check_readset(q, scns))
+            add(nm, fn, "(c) read set within notifying set")
+            mine.append((nm, fn))
+        elif _anchored(c):
+            obs.append(_undecided_ob(nm, "class %s (anchored file) could not be instantiated with cheap real inputs" % q, "(c) read set within notifying set"))
+            undecided_classes.append(c.__name__)
+        seen = set()
+        for gname, flag, k, kind in find_cached_getters(c):
+            if (gname, flag) in seen:
+                continue
+            seen.add((gname, flag))
+            nm = "C11.d.getter[%s.%s]" % (short(c), gname)
+            if scns:
+                fn = (lambda q=q, g=gname, f=flag, scns=scns: check_getter(q, g, f, scns))
+                add(nm, fn, "(d) cached getters")
+                mine.append((nm, fn))
+            elif _anchored(c):
+                obs.append(_undecided_ob(nm, "class %s could not be instantiated" % q, "(d) cached getters"))
+
+    # ---- (a) mutators -------------------------------------------------------------------------------
+    A = "(a) mutators notify"
+    K = "param.kinds"
+    param_classes = [c for c in classes if issubclass(c, AbstractParameter) and not heap.is_abstract(c)]
+    known_setter_targets = {"Parameter": ["a"], "ViewParameter": ["a.view", "a.view_idx", "z.exp.view"], "CatParameter": ["ab.cat", "vb.cat"],
+                            "TransformedParameter": ["z.exp", "zb.affine", "v.exp"]}
+    for c in param_classes:
+        if _setter_is_deliberate_raise(c, "tensor"):
+            continue   # a setter that is a bare `raise` performs no update (documented: the parameter is read-only)
+        tg = known_setter_targets.get(c.__name__)
+        if tg:
+            for t in tg:
+                nm = "C11.a.notify[%s.tensor.setter%s]" % (c.__name__, "" if t == tg[0] else "|" + t)
+                fn = (lambda c=c, t=t: check_mutation("%s.tensor = ... (%s)" % (c.__name__, t), {"graph": K, "mutation": "tensor.setter", "target": t, "value": _PARAM_VALUES[t]}, must_notify=[t]))
+                add(nm, fn, A)
+                _CLASS_OBS.setdefault(_qual(c), []).append((nm, fn))
+        else:
+            sc = by.get(_qual(c), [])
+            nm = "C11.a.notify[%s.tensor.setter]" % c.__name__
+            if sc:
+                s0 = build(sc[0])
+                rng = random.Random(nm)
+                val = _perturb(s0.out.tensor, "real", rng).tolist()
+                fn = (lambda c=c, sn=sc[0], val=val, on=s0.out_name: check_mutation("%s.tensor = ..." % c.__name__, {"graph": sn, "mutation": "tensor.setter", "target": on, "value": val}))
+                add(nm, fn, A)
+                _CLASS_OBS.setdefault(_qual(c), []).append((nm, fn))
+            else:
+                obs.append(_undecided_ob(nm, "no scenario instantiates %s" % _qual(c), A))
+    for cn, t in (("Parameter", "a"), ("CatParameter", "ab.cat"), ("TransformedParameter", "z.exp")):
+        add("C11.a.notify[%s.requires_grad.setter]" % cn,
+            (lambda cn=cn, t=t: check_mutation("%s.requires_grad = True (%s)" % (cn, t), {"graph": K, "mutation": "requires_grad.setter", "target": t, "value": True}, must_notify=[t])), A)
+    add("C11.a.noraise[ViewParameter.tensor.setter|base.requires_grad=True]", _ob_view_requires_grad, A)
+    dist_scn = [("Distribution", "distribution.normal", "dist"), ("Distribution|x=list", "distribution.list_x", "dist"),
+                ("DeterministicNormal", "deterministic_normal", "dist"), ("MultivariateNormal", "multivariate_normal", "dist"),
+                ("NormalizingFlow", "nf.normalizing_flow", "flow"), ("RealNVP", "nf.realnvp", "flow")]
+    for cn, sn, dn in dist_scn:
+        for m in ("rsample", "sample"):
+            add("C11.a.notify[%s.%s]" % (cn, m), (lambda cn=cn, sn=sn, dn=dn, m=m: check_mutation("%s.%s()" % (cn, m), {"graph": sn, "mutation": m, "dist": dn, "seed": 3})), A)
+    for m in ("rsample", "sample"):
+        add("C11.a.notify[JointDistributionModel.%s]" % m, (lambda m=m: _ob_joint_sample(m)), A)
+    add("C11.a.notify[parameter_utils.pack_tensor]", lambda: check_mutation("pack_tensor", {"graph": K, "mutation": "pack_tensor", "targets": ["a.view", "b", "z.exp"], "value": [1.1, 2.2, 0.7, 1.5, 0.6]}), A)
+    add("C11.a.notify[hmc.integrator.set_tensor]", lambda: check_mutation("set_tensor", {"graph": K, "mutation": "set_tensor", "targets": ["a", "z"], "value": [1.1, 2.2, 0.7, 1.5, 0.6, -0.1]}), A)
+    for opn, targets in (("ScalerOperator", ["a"]), ("ScalerOperator|view", ["a.view"]), ("ScalerOperator|transformed", ["z.exp"]), ("ScalerOperator|cat", ["ab.cat"]),
+                         ("SlidingWindowOperator", ["z"]), ("SlidingWindowOperator|view", ["a.view_idx"]), ("DirichletOperator", ["a"])):
+        base = opn.split("|")[0]
+        for m in ("step", "step+reject"):
+            add("C11.a.notify[%s.%s]" % (opn, m.replace("step+", "")) if m != "step" else "C11.a.notify[%s._step]" % opn,
+                (lambda base=base, targets=targets, m=m: check_mutation("%s.%s on %s" % (base, m, targets), {"graph": K, "mutation": "operator." + m, "operator": base, "targets": targets, "seed": 9})), A)
+    for m in ("step", "step+reject"):
+        add("C11.a.notify[HMCOperator.%s]" % ("_step" if m == "step" else "reject"),
+            (lambda m=m: check_mutation("HMCOperator.%s" % m, {"graph": "graph.joint_parameter_kinds", "mutation": "operator." + m, "operator": "HMCOperator", "targets": ["z", "b"], "joint": "joint", "seed": 9})), A)
+    add("C11.a.notify[GMRFPiecewiseCoalescentBlockUpdatingOperator._step]", _ob_gmrf_operator, A)
+    add("C11.a.notify[Optimizer._run]", lambda: check_optimizer({"algorithm": "SGD", "iterations": 3}), A)
+    add("C11.a.notify[Optimizer._run_closure]", lambda: check_optimizer({"algorithm": "LBFGS", "iterations": 2}), A)
+
+    # ---- dyn ----------------------------------------------------------------------------------------
+    nh, ln = (6, 40) if quick else (40, 80)
+    for g in DYN_GRAPHS:
+        add("C11.dyn.history[%s]" % g, (lambda g=g: check_dyn(g, seed, nh, ln)), "end-to-end cross-validation (bounded)", tag="B", timeout=1800)
+    nh2, ln2 = (3, 30) if quick else (10, 60)
+    for sn in SCENARIOS:
+        if sn.startswith(("twin.", "graph.")):
+            continue
+        add("C11.dyn.class[%s]" % sn, (lambda sn=sn: check_dyn_class(sn, seed, nh2, ln2)), "end-to-end cross-validation per class scenario (bounded; completeness guard of (a)-(d))", tag="B", timeout=1800)
+
+    # ---- vacuity --------------------------------------------------------------------------------------
+    add("C11.vacuity.handlers", vacuity_handlers, "guard: must-fail twins of (b) and dyn")
+    add("C11.vacuity.readset", vacuity_readset, "guard: must-fail twin of (c)")
+    add("C11.vacuity.getters", vacuity_getters, "guard: must-fail twins of (d)")
+    add("C11.vacuity.mutators", vacuity_mutators, "guard: must-fail twin of (a)")
+
+    abstract = [c.__name__ for c in classes if heap.is_abstract(c)]
+    META["explanation"] = META["explanation"].split(" || coverage:")[0] + (
+        " || coverage: %d classes discovered; instantiated with real inputs: %s; concrete, AST only: %s; abstract (covered through "
+        "subclasses): %s; import failures: %s" % (len(classes), ", ".join(inst), ", ".join(ast_only) or "none", ", ".join(abstract), failed or "none"))
+    return obs
+
+
+def _ob_view_requires_grad():
+    args = {"kind": "view_requires_grad"}
+    ok, msg = _replay_view_requires_grad(args)
+    if not ok:
+        raise Refuted(msg, witness={"replay_args": args}, replay={"kind": "custom", "contract": "C11", "func": "replay_history", "args": args}, confirmed=True)
+    return {"backend": "concrete", "statement": "assignment through a ViewParameter whose base requires grad (the state Optimizer.run leaves behind) returns normally"}
+
+
+def _replay_view_requires_grad(args):
+    s = build("param.kinds")
+    s.params["a"].requires_grad = True     # what Optimizer._run does to every optimised parameter (and never undoes)
+    try:
+        s.derived["a.view"].tensor = torch.tensor([1.0, 2.0])
+    except Exception as e:
+        return False, ("ViewParameter.tensor = ... raises %s: %s when the base parameter has requires_grad=True (set through the public "
+                       "requires_grad setter, e.g. by Optimizer._run): `self.parameter.tensor[..., self.indices] = tensor` is an in-place write "
+                       "into a leaf that requires grad" % (type(e).__name__, str(e)[:160]))
+    return True, "assignment through the view succeeded"
+
+
+def _ob_joint_sample(m):
+    from torchtree.distributions.distributions import Distribution
+    from torchtree.distributions.joint_distribution import JointDistributionModel
+    args = {"kind": "joint_sample", "method": m}
+    ok, msg = _replay_joint_sample(args)
+    if not ok:
+        raise Refuted(msg, witness={"replay_args": args}, replay={"kind": "custom", "contract": "C11", "func": "replay_history", "args": args}, confirmed=True)
+    return {"backend": "heap-proxies", "statement": "JointDistributionModel.%s notifies the listeners of every drawn parameter" % m}
+
+
+def _replay_joint_sample(args):
+    from torchtree.distributions.joint_distribution import JointDistributionModel
+    s = build("graph.joint_parameter_kinds")
+    j = JointDistributionModel("draws", [s.models["prior.z"], s.models["prior.a"]])
+    ws = _watch_all(s)
+    try:
+        with _rng_frozen(3):
+            getattr(j, args["method"])(torch.Size([]))
+    except Exception as e:
+        return False, "JointDistributionModel.%s raised %s: %s" % (args["method"], type(e).__name__, e)
+    bad = [n for n, w in ws.items() if not w.consistent()]
+    if bad:
+        return False, "after JointDistributionModel.%s the listeners of %s hold a stale value" % (args["method"], bad)
+    d = compare_with_fresh(s, list(s.evals), 0)
+    if d:
+        return False, "after JointDistributionModel.%s: %s" % (args["method"], d[:2])
+    return True, "every listener invalidated; every model equals a fresh copy"
+
+
+@scenario("graph.skygrid_gmrf")
+def _s(s):
+    from torchtree.distributions.gmrf import GMRF
+    from torchtree.evolution.coalescent import PiecewiseConstantCoalescentGridModel
+    tm = _time_tree(s, "heights")
+    field = s.P("field", [1.0, 0.7, 1.3], "real")
+    from torchtree.core.parameter import TransformedParameter
+    theta = s.D("theta", TransformedParameter("theta", field, torch.distributions.ExpTransform()), None)
+    coal = s.M("coalescent", PiecewiseConstantCoalescentGridModel("coalescent", theta, s.P("grid", [0.55, 0.8], "scale"), tm))
+    s.E("coalescent.__call__", lambda: coal())
+    g = s.M("gmrf", GMRF("gmrf", field, s.P("precision", [2.0], "pos")))
+    s.E("gmrf.__call__", lambda: g())
+
+
+def _ob_gmrf_operator():
+    args = {"graph": "graph.skygrid_gmrf", "mutation": "operator.step+reject", "operator": "GMRFPiecewiseCoalescentBlockUpdatingOperator", "targets": ["field", "precision"], "seed": 9}
+    try:
+        build("graph.skygrid_gmrf")
+        s, ws = _mutation(dict(args, mutation="operator.step"))
+    except Exception as e:
+        raise Undecided("the GMRF block-updating operator could not be driven on a small real skygrid (%s: %s); not an anchored file" % (type(e).__name__, str(e)[:120]))
+    _check_watchers(ws, "GMRFPiecewiseCoalescentBlockUpdatingOperator._step", dict(args, mutation="operator.step", kind="mutation"))
+    return check_mutation("GMRFPiecewiseCoalescentBlockUpdatingOperator.step+reject", args)
